@@ -5,6 +5,7 @@ import Driver.Rt
 import Driver.Fe
 import Driver.Graph
 import Driver.Decl
+import Driver.Comp
 /-!
 Line-protocol driver. One JSON object per input line, one JSON object per output line.
 Every request carries `"op": "<suite>.<name>"`; the suite prefix selects the handler.
@@ -25,6 +26,7 @@ def dispatch (st : DriverState) (j : Json) : Except String (DriverState × Json)
   else if op.startsWith "fe." then pure' (Driver.Fe.handle op j)
   else if op.startsWith "graph." then pure' (Driver.Graph.handle op j)
   else if op.startsWith "decl." then pure' (Driver.Decl.handle op j)
+  else if op.startsWith "comp." then pure' (Driver.Comp.handle op j)
   else throw s!"unknown suite in op {op}"
 
 partial def loop (hin : IO.FS.Stream) (hout : IO.FS.Stream) (st : DriverState) : IO Unit := do
